@@ -49,6 +49,11 @@ def expect_after(note_t, step):
     return T.LETTERS[(T.li(name) - num + 1) % 7], i - size
 
 
+def own_int(x):
+    """pitch number from the public name and octave (not from anything the object may remember)"""
+    return 12 * x.octave + T.NAT[x.name[0]] + T.net(x.name)
+
+
 def compare(ctx, before, after, step, w, level):
     """before/after: snapshots (list of bars). Everything but note names/octaves must be identical and
     every note must be the note-level image of its original."""
@@ -98,7 +103,12 @@ def run(shard, ctx):
                     for up in (True, False):
                         x = Note(n, o)
                         x.set_velocity(99), x.set_channel(7)
-                        base = int(x)
+                        if (len(n) + o + len(sh)) % 3 == 0:
+                            # the same object arrives already used: it was something else, was compared, and was then renamed
+                            x.name, x.octave = "G", 2
+                            x < Note("C", 4), int(x)
+                            x.name, x.octave = n, o
+                        base = own_int(x)
                         w = {"note": [n, o], "interval": sh, "up": up}
                         st, r = ctx.call(x.transpose, sh, up)
                         if st != "ok" or not T.valid(x.name):
@@ -106,7 +116,7 @@ def run(shard, ctx):
                             continue
                         exp_i = base + size if up else base - size
                         exp_L = T.LETTERS[(i + num - 1) % 7] if up else T.LETTERS[(i - num + 1) % 7]
-                        ctx.check("note: pitch number moves by exactly the interval's size", int(x) == exp_i, w, exp_i, int(x),
+                        ctx.check("note: pitch number moves by exactly the interval's size", own_int(x) == exp_i and int(x) == exp_i, w, exp_i, [own_int(x), int(x)],
                                   mechanism="semitones:" + ("up" if up else "down"))
                         ctx.check("note: renamed on the letter the interval number requires", x.name[0] == exp_L, w, exp_L, x.name,
                                   mechanism="letter:" + ("up" if up else "down"))
@@ -118,7 +128,7 @@ def run(shard, ctx):
                                       mechanism="restore:" + ("up-down" if up else "down-up"))
                         else:
                             ctx.check("note: transposing back restores the original pitch on the original letter",
-                                      st == "ok" and x.name[:1] == n[0] and int(x) == base, w, [n[0], base],
+                                      st == "ok" and x.name[:1] == n[0] and own_int(x) == base, w, [n[0], base],
                                       [x.name, x.octave], mechanism="restore-pitch:" + ("up-down" if up else "down-up"))
                         ctx.case(("note", n, o, sh, up), nontrivial=sh != "1")
                         cnt += 1
@@ -188,6 +198,12 @@ def run(shard, ctx):
             start = MU.snap_track(t)
             ctx.state((tuple((b["key"], b["meter"], len(b["entries"])) for b in start)))
             for si, step in enumerate(steps):
+                if rng.random() < 0.3:
+                    # some notes are renamed in place through their public attributes (after having been compared / sorted)
+                    pool = [n for b in t.bars for e in b.bar if e[2] is not None for n in e[2].notes]
+                    for n in rng.sample(pool, min(len(pool), rng.randint(1, 3))):
+                        int(n), n < Note("C", 4)
+                        n.name, n.octave = rng.choice(["C", "D", "E", "F", "G", "A", "B"]), rng.randint(2, 6)
                 before = MU.snap_track(t)
                 w = {"track": ti, "level": level, "steps": steps[:si + 1], "bars": len(before)}
                 if level == "track":
